@@ -45,11 +45,11 @@ PROPS = {
         "title": "value round-trip of the built-in codecs",
         "bounds": "per concrete instantiation (one harness each, listed in the evidence): ALL values of the type symbolic (every width boundary inside the query); "
                   "encode into a 32-byte cursor, decode from a fresh array of the type's maximal encoded length; compound types over scalar fields; "
-                  "Option/Bound rows use the R3 model of Decoder::skip (C06 proves skip == R3)",
-        "outside": "HashMap/HashSet (SipHash/RandomState not encodable), heap collections (alloc rows are thorough-tier), strings > 4 bytes, tuples > 4",
+                  "Option/Bound rows use the R3 model of Decoder::skip (C06 proves skip == R3); alloc/std rows (String, Box, ByteVec, Vec/VecDeque <= 1 element with CONCRETE element counts on the decode side, Ipv4Addr, Ipv6Addr, IpAddr, SocketAddrV4) in a {half,std} build",
+        "outside": "HashMap/HashSet (SipHash/RandomState not encodable), BTreeMap/BTreeSet/BinaryHeap/LinkedList and Vec/VecDeque with >= 2 elements on the decode side, SystemTime round trip (all exhaust 12 GB), strings > 4 bytes, tuples > 4",
         "assumptions": ["Decoder::skip replaced by the R3 model in rows whose decoder skips a null/unit placeholder"],
         "groups": [core({"quick": ["::q::c01", "c01b::c01_q_", "c01t::c01_q_"], "thorough": ["::c01", "c01b::c01_q_", "c01t::c01_q_"]}),
-                   core(["types_alloc::"], features=("half", "std"), tiers=["thorough"], timeout={"thorough": 1200})],
+                   core(["types_alloc::"], features=("half", "std"))],
     },
     "C02": {
         "title": "decoding untrusted bytes is total",
